@@ -7,6 +7,7 @@ From AGH Require Import Model.BlockedSvcHttp Proofs.BlockedSvcHttp.
 From AGH Require Import Model.BlockedSvcClient Proofs.BlockedSvcClient.
 From AGH Require Import Model.ScheduleZone Proofs.ScheduleZone.
 From AGH Require Import Model.BlockedSvcPersist Proofs.BlockedSvcPersist.
+From AGH Require Model.ClientIndex Model.ClientConfig Proofs.ClientSchedConfig.
 Local Open Scope Z_scope.
 
 (** For every zone (any offset function), instant and schedule: in effect
@@ -844,3 +845,59 @@ Example C18_restart_example :
               = Some l' /\ lf_mem l' = {| bs_ids := cons (cons 97%N nil) nil; bs_sched := ex_sched |}).
 Proof. exact ex_persist. Qed.
 Print Assumptions C18_restart_example.
+
+(** * Round 8: the per-client schedule through the clients section of the
+    configuration file (C04's model of toPersistent / forConfig, not
+    re-modelled) *)
+
+(** For every clientObject (every combination of use_global_blocked_services,
+    own list, own schedule, zone, and every other key): the client read back
+    from what forConfig wrote carries the same own list and schedule (zone
+    and bounds) and the same switch. *)
+Theorem C18_client_schedule_survives_config_roundtrip : forall known g g' o c x,
+  Model.ClientConfig.to_persistent known g o = Model.ClientConfig.COk c x ->
+  Model.ClientIndex.c_uid c <> 0%N ->
+  exists c', Model.ClientConfig.to_persistent known g' (Model.ClientConfig.for_config c x)
+               = Model.ClientConfig.COk c' x /\
+             Model.ClientIndex.c_blocked c' = Model.ClientIndex.c_blocked c /\
+             Model.ClientIndex.c_own_blocked c' = Model.ClientIndex.c_own_blocked c /\
+             Model.ClientIndex.c_blocked c' =
+               Some (Model.ClientConfig.stored_blocked (Model.ClientConfig.o_blocked o)).
+Proof. exact Proofs.ClientSchedConfig.client_schedule_survives. Qed.
+Print Assumptions C18_client_schedule_survives_config_roundtrip.
+
+(** forConfig copying the section only when the client uses its own services
+    (seeded change C18-O): a client with list [4chan] and a whole-week pause
+    in zone 3 that uses the global services is read back with the empty week
+    in zone Local and no ids. *)
+Theorem C18_client_config_own_only_refuted :
+  exists c x c',
+    Model.ClientConfig.to_persistent (cons Proofs.ClientSchedConfig.svc_4chan nil) 0%N
+      (Proofs.ClientSchedConfig.ex_obj_global true) = Model.ClientConfig.COk c x /\
+    Model.ClientIndex.c_uid c <> 0%N /\
+    Model.ClientIndex.c_blocked c =
+      Some {| Model.ClientIndex.b_ids := cons Proofs.ClientSchedConfig.svc_4chan nil;
+              Model.ClientIndex.b_sched := Proofs.ClientSchedConfig.full_week;
+              Model.ClientIndex.b_zone := 3%N |} /\
+    Model.ClientConfig.to_persistent (cons Proofs.ClientSchedConfig.svc_4chan nil) 0%N
+      (Proofs.ClientSchedConfig.for_config_own_only c x) = Model.ClientConfig.COk c' x /\
+    Model.ClientIndex.c_blocked c' = Some Model.ClientConfig.default_blocked /\
+    (forall c2 x2,
+       Model.ClientConfig.to_persistent (cons Proofs.ClientSchedConfig.svc_4chan nil) 0%N
+         (Proofs.ClientSchedConfig.ex_obj_global false) = Model.ClientConfig.COk c2 x2 ->
+       Proofs.ClientSchedConfig.for_config_own_only c2 x2 = Model.ClientConfig.for_config c2 x2).
+Proof. exact Proofs.ClientSchedConfig.own_only_refuted. Qed.
+Print Assumptions C18_client_config_own_only_refuted.
+
+Example C18_client_config_premises_satisfiable :
+  forall b, exists c x,
+    Model.ClientConfig.to_persistent (cons Proofs.ClientSchedConfig.svc_4chan nil) 0%N
+      (Proofs.ClientSchedConfig.ex_obj_global b) = Model.ClientConfig.COk c x /\
+    Model.ClientIndex.c_uid c <> 0%N /\
+    Model.ClientIndex.c_own_blocked c = negb b /\
+    Model.ClientIndex.c_blocked c =
+      Some {| Model.ClientIndex.b_ids := cons Proofs.ClientSchedConfig.svc_4chan nil;
+              Model.ClientIndex.b_sched := Proofs.ClientSchedConfig.full_week;
+              Model.ClientIndex.b_zone := 3%N |}.
+Proof. exact Proofs.ClientSchedConfig.ex_client_sched. Qed.
+Print Assumptions C18_client_config_premises_satisfiable.
